@@ -29,6 +29,7 @@ static int is_cr;                /* constant-rate engine (plan export possible) 
 static uint64_t sig_shift;       /* op `shift d`: the stream is d arbitrary frames followed by the unshifted signal */
 static uint64_t win_a, win_n, win_seg; static uint64_t * win_hash; static size_t win_cnt;  /* op `window a n seg` */
 static size_t stale_ilen;
+static int null_out;            /* op `nullout 1`: a call that asks for 0 output frames passes out == NULL */
 static int eoi_style;           /* op `eoistyle k`: how end-of-input is signalled and how the drain calls look (see after_end) */        /* op `stale n`: the ilen passed along with in == NULL (soxr.h puts no requirement on it) */
 
 /* ---------- deterministic input signal: a function of (channel, absolute frame index) only */
@@ -270,7 +271,7 @@ static void do_create(char * * t, int nt)
   rt.flags = kvu(t, nt, "rtflags", 0);
   if (S) soxr_delete(S);
   S = soxr_create(irate, orate, ch, &create_err, &io, &q, &rt);
-  pos = total_out = 0; memset(hash, 0, sizeof(hash)); max_ilen_set = 0; limitN = UINT64_MAX; sig_shift = 0; eoi_style = 0;
+  pos = total_out = 0; memset(hash, 0, sizeof(hash)); max_ilen_set = 0; limitN = UINT64_MAX; sig_shift = 0; eoi_style = 0; null_out = 0;
   free(win_hash); win_hash = 0;
   if (!S) { printf("< CREATE err %s\n", create_err); return; }
   e = (char *)soxr_engine(S);
@@ -285,7 +286,8 @@ static void run_process(int hasIn, int flushReq, int useIdone, size_t ilen, size
   void * in = 0, * in_free = 0, * out; size_t idone = 0, odone = 0, direct = 0; int i; int err_before = S->error != 0;
   script = scr; nscript = nscr; script_pos = script_base = 0; rle_reset(&reqlog); rle_reset(&usedlog);
   if (!nscr && gscript) { script = gscript; nscript = ngscript; script_pos = script_base = gpos; }
-  out = make_output(olen);
+  /* (a NULL array of split channel pointers is dereferenced by the library whatever the length: not done) */
+  out = (null_out || eoi_style == 4) && !olen && !(otype & SOXR_SPLIT)? 0 : make_output(olen);
   if (is_pull) odone = soxr_output(S, out, olen);
   else {
     if (hasIn) {
@@ -302,8 +304,8 @@ static void run_process(int hasIn, int flushReq, int useIdone, size_t ilen, size
     if (hasIn) free_input(in, in_free);
   }
   if (fn_buf) { free_input(fn_buf, fn_free); fn_buf = 0; }
-  if (odone <= olen) absorb_output(out, odone);
-  free_output(out);
+  if (odone <= olen && out) absorb_output(out, odone);
+  if (out) free_output(out);
   if (is_pull) printf("> cr.pull %zu%s", olen, rle_str(&usedlog));
   else printf("> cr.proc %d %d %d %zu %zu%s", hasIn, flushReq, useIdone, ilen, olen, rle_str(&usedlog));
   /* two more answers than were needed, so that a model that wants to call again can */
@@ -328,7 +330,8 @@ static void do_eoi(void)
 
 /* one call once the stream is used up.  eoi_style 0: in == NULL throughout (with the stale ilen);  1: end-of-input by a call with
  * neither buffer, then drains that pass a non-NULL input of 0 frames;  2: end-of-input by in == NULL, then such drains;
- * 3: end-of-input by ilen = ~0 with a non-NULL input, then in == NULL drains.  All four say the same thing in soxr.h's terms. */
+ * 3: end-of-input by ilen = ~0 with a non-NULL input, then in == NULL drains;  4: the last block of the stream itself carries the
+ * mark (ilen = ~il) and comes with out == NULL / olen == 0, then in == NULL drains.  All say the same thing in soxr.h's terms. */
 static void after_end(size_t ol, char * * scr, int nscr)
 {
   if (!S->flushing) {
@@ -374,7 +377,12 @@ int main(void)
     else if (!strcmp(t[0], "feed") && nt >= 4) {     /* feed il ol useIdone: next block of the stream, or a flush request once it is used up */
       size_t il = (size_t)strtoull(t[1], 0, 10), ol = (size_t)strtoull(t[2], 0, 10);
       /* once end-of-input has been signalled no more input is offered (soxr.h: "no data is available nor shall be available") */
-      if (pos < limitN && !S->flushing) { if (il > limitN - pos) il = (size_t)(limitN - pos); run_process(1, 0, atoi(t[3]), il, ol, t + 4, nt - 4, 0); }
+      if (pos < limitN && !S->flushing) {
+        if (il > limitN - pos) il = (size_t)(limitN - pos);
+        /* eoi_style 4: the block that uses the stream up carries the end-of-input mark (ilen = ~il) and comes without an output buffer */
+        if (eoi_style == 4 && il == limitN - pos) run_process(1, 1, 0, il, 0, t + 4, nt - 4, 0);
+        else run_process(1, 0, atoi(t[3]), il, ol, t + 4, nt - 4, 0);
+      }
       else after_end(ol, t + 4, nt - 4);
     }
     else if (!strcmp(t[0], "drain") && nt >= 2) {    /* drain ol: end of input, then requests of ol frames until one returns nothing, then one more */
@@ -401,6 +409,7 @@ int main(void)
     }
     else if (!strcmp(t[0], "eoi")) do_eoi();     /* end of input signalled by a call with neither an input nor an output buffer */
     else if (!strcmp(t[0], "eoistyle") && nt >= 2) eoi_style = atoi(t[1]);
+    else if (!strcmp(t[0], "nullout") && nt >= 2) null_out = atoi(t[1]);
     else if (!strcmp(t[0], "pull") && nt >= 2)
       run_process(0, 0, 0, 0, (size_t)strtoull(t[1], 0, 10), t + 2, nt - 2, 1);
     else if (!strcmp(t[0], "delay")) {
